@@ -118,6 +118,7 @@ HINT = {"consume": "_distribute_consume_power", "supply": "_distribute_supply_po
 def _reset(prog: Program) -> None:
     if _MEMO[0] is not prog:
         _MEMO[:] = [prog, {}, {}, None]
+        _MEMO_BIND.clear()
 
 
 def _self_call(e: ast.AST, methods: Any) -> str | None:
@@ -162,18 +163,39 @@ def anchors(prog: Program) -> dict[str, str]:
         if pub is not None:
             prm = _params(pub)
             pos: dict[bool, set[str]] = {True: set(), False: set()}
+            calls: dict[bool, list[ast.Call]] = {True: [], False: []}
             for p, _st in top("distribute_power"):
                 m = _self_call(p.ret, methods) if p.exit == "return" and p.ret is not None else None
                 if m is None or not prm:
                     continue
+                decided = False
                 for zero in ("0.0", "0"):
                     o = p.outcome(("<", zero, prm[0]))
                     if o is None and p.outcome(("<", prm[0], zero)) is not None:
                         o = not p.outcome(("<", prm[0], zero))
                     if o is not None:
                         pos[o].add(m)
-            if len(pos[True]) == 1 and len(pos[False]) == 1 and pos[True] != pos[False]:
+                        calls[o].append(p.ret)  # type: ignore[arg-type]
+                        decided = True
+                if not decided and not _is_zero_request_exit(p, prm[0]):
+                    # one call for both signs: the direction travels in an argument
+                    for o in (True, False):
+                        pos[o].add(m)
+                        calls[o].append(p.ret)  # type: ignore[arg-type]
+            if len(pos[True]) == 1 and len(pos[False]) == 1:
                 out["consume"], out["supply"] = next(iter(pos[True])), next(iter(pos[False]))
+                if out["consume"] == out["supply"] and out["consume"] in methods:
+                    # sibling entry points merged into one function parametrised by the direction: each
+                    # direction is that function with the direction parameter fixed to what it is called with
+                    merged = methods[out["consume"]]
+                    for positive in (True, False):
+                        bind: dict[str, bool] = {}
+                        for c in calls[positive]:
+                            for k, a in positional(c, _params(merged)).items():
+                                v = _truth(a, prm[0], positive)
+                                if v is not None:
+                                    bind[k] = v
+                        _MEMO_BIND["consume" if positive else "supply"] = bind
         if out["consume"] in methods:
             for p, _st in top(out["consume"]):
                 for e in p.calls():
@@ -208,6 +230,61 @@ def anchors(prog: Program) -> dict[str, str]:
         out = dict(HINT)
     _MEMO[3] = out
     return out
+
+
+_MEMO_BIND: dict[str, dict[str, bool]] = {}      # entry role -> parameters fixed to a constant (merged entry points)
+
+
+def _is_zero_request_exit(p: Path, request: str) -> bool:
+    return any(zero_test(atom, request) is not None and o == zero_test(atom, request) for _k, _ko, atom, _ln, o in p.conds)
+
+
+def _truth(a: ast.AST, request: str, positive: bool) -> bool | None:
+    """Truth value of a direction argument for a positive / negative request: a boolean constant, or a
+    comparison of the request with zero."""
+    if isinstance(a, ast.Constant) and isinstance(a.value, bool):
+        return a.value
+    if isinstance(a, ast.UnaryOp) and isinstance(a.op, ast.Not):
+        v = _truth(a.operand, request, positive)
+        return None if v is None else not v
+    if isinstance(a, ast.Compare) and len(a.ops) == 1:
+        left, op, right = a.left, a.ops[0], a.comparators[0]
+        if u(right) == request and _zero_const(left):
+            left, right = right, left
+            op = {ast.Lt: ast.Gt, ast.Gt: ast.Lt, ast.LtE: ast.GtE, ast.GtE: ast.LtE}.get(type(op), type(op))()
+        if u(left) == request and _zero_const(right):
+            if isinstance(op, (ast.Lt, ast.LtE)):
+                return not positive
+            if isinstance(op, (ast.Gt, ast.GtE)):
+                return positive
+    return None
+
+
+def entry_bind(prog: Program, role: str) -> dict[str, bool]:
+    """Parameters of the (merged) entry function that are fixed for `role`."""
+    anchors(prog)
+    return dict(_MEMO_BIND.get(role) or {})
+
+
+def entry(prog: Program, role: str) -> FuncInfo:
+    """The function that serves requests of one sign (role consume / supply), prepared; for merged entry
+    points the direction parameter is fixed to the constant that direction is called with."""
+    anchors(prog)
+    base = prep(prog, q(prog, role))
+    bind = _MEMO_BIND.get(role) or {}
+    if not bind:
+        return base
+    key = f"{base.qual}#{role}"
+    got = _MEMO[1].get(key)
+    if got is None:
+        node = copy.deepcopy(base.node)
+        pre = [ast.Assign(targets=[ast.Name(id=k, ctx=ast.Store())], value=ast.Constant(v)) for k, v in bind.items()]
+        body = list(node.body)
+        at_ = 1 if _strip_doc(body) is not body else 0
+        node.body = body[:at_] + pre + body[at_:]
+        ast.fix_missing_locations(node)
+        got = _MEMO[1][key] = FuncInfo(base.name, base.module, node, base.cls, base.outer)
+    return got
 
 
 INLINABLE = ("greedy", "mip")       # roles that the allocation function may play itself (helper inlined)
@@ -253,6 +330,10 @@ def _regions(fn: ast.FunctionDef | ast.AsyncFunctionDef, max_paths: int = 4096) 
         if st == "next":
             p.exit, p.ret, p.lineno = "fall", None, getattr(fn, "end_lineno", 0) or 0
     out = [Region("top", None, [], top_paths)]
+    once: dict[str, int] = {}           # how often a local is bound anywhere in the function
+    for n in ast.walk(fn):
+        if isinstance(n, ast.Name) and isinstance(n.ctx, (ast.Store, ast.Del)):
+            once[n.id] = once.get(n.id, 0) + 1
     i = 0
     while i < len(out):
         r = out[i]
@@ -266,11 +347,28 @@ def _regions(fn: ast.FunctionDef | ast.AsyncFunctionDef, max_paths: int = 4096) 
                     ent[2].append(p)
         for loop, headers, through in found.values():
             start = _inherited(loop, through)
+            consts = {k: v for k, v in _const_env(loop, through).items() if once.get(k, 0) <= 1}
             body = list(loop.body)  # type: ignore[attr-defined]
-            out.append(Region("loop", loop, headers, _Sym(max_paths).block(Path(conds=list(start)), body), r))
+            out.append(Region("loop", loop, headers,
+                              _Sym(max_paths).block(Path(conds=list(start), env=dict(consts)), body), r))
             if getattr(loop, "orelse", None):
-                out.append(Region("else", loop, headers,
-                                  _Sym(max_paths).block(Path(conds=list(start)), list(loop.orelse)), r))  # type: ignore[attr-defined]
+                out.append(Region("else", loop, headers, _Sym(max_paths).block(
+                    Path(conds=list(start), env=dict(consts)), list(loop.orelse)), r))  # type: ignore[attr-defined]
+    return out
+
+
+def _const_env(loop: ast.AST, through: list[Path]) -> dict[str, ast.AST]:
+    """Locals that hold the same boolean / None constant on every path that runs the loop and that the loop
+    does not re-bind: they keep that value inside it (a direction flag decides the branches of the body)."""
+    if not through:
+        return {}
+    rebound = {n.id for n in ast.walk(loop) if isinstance(n, ast.Name) and isinstance(n.ctx, (ast.Store, ast.Del))}
+    out: dict[str, ast.AST] = {}
+    for name, val in through[0].env.items():
+        if name in rebound or not (isinstance(val, ast.Constant) and (isinstance(val.value, bool) or val.value is None)):
+            continue
+        if all(isinstance(q.env.get(name), ast.Constant) and q.env[name].value is val.value for q in through[1:]):  # type: ignore[union-attr]
+            out[name] = val
     return out
 
 
@@ -426,6 +524,37 @@ def _plain(e: ast.AST) -> bool:
                               ast.BinOp, ast.Mult, ast.Add, ast.Sub)) for n in ast.walk(e))
 
 
+def _returns_in(st: ast.AST) -> bool:
+    return any(isinstance(n, ast.Return) for n in walk_no_nested(st))
+
+
+def _single_exit(stmts: list[ast.stmt], result: str | None) -> list[ast.stmt] | None:
+    """The statement list without `return`: a return becomes an assignment to `result` (dropped for bare
+    returns) and ends its branch; the statements after an `if` that may return are moved into the branches
+    that fall through.  None when a return sits inside a loop / try / with / match."""
+    out: list[ast.stmt] = []
+    for i, st in enumerate(stmts):
+        if isinstance(st, ast.Return):
+            if result is not None:
+                out.append(ast.copy_location(ast.Assign(
+                    targets=[ast.Name(id=result, ctx=ast.Store())],
+                    value=st.value if st.value is not None else ast.Constant(None)), st))
+            return out
+        if isinstance(st, ast.If) and _returns_in(st):
+            rest = stmts[i + 1:]
+            body = _single_exit(list(st.body) + copy.deepcopy(rest), result)
+            orelse = _single_exit(list(st.orelse) + copy.deepcopy(rest), result)
+            if body is None or orelse is None:
+                return None
+            new = ast.If(test=st.test, body=body or [ast.copy_location(ast.Pass(), st)], orelse=orelse)
+            out.append(ast.copy_location(new, st))
+            return out
+        if _returns_in(st):
+            return None
+        out.append(st)
+    return out
+
+
 def splice_blocks(prog: Program, fn: FuncInfo, keep: Iterable[str] = (), depth: int = 3) -> Any:
     """Splice private (non-anchored) helpers that are a block of statements with at most one trailing return
     into the statement whose whole value is the call (expression statement, plain / annotated / augmented
@@ -455,10 +584,22 @@ def splice_blocks(prog: Program, fn: FuncInfo, keep: Iterable[str] = (), depth: 
                     continue
                 body = _strip_doc(h.body)
                 rets = [n for b in body for n in walk_no_nested(b) if isinstance(n, ast.Return)]
-                if not body or len(body) > 40 or len(rets) > 1 or (rets and rets[0] is not body[-1]):
+                if not body or len(body) > 40:
                     continue
                 if len(body) == 1 and rets:
                     continue            # a single expression: the engine's splicer handles it in place
+                if len(rets) > 1 or (rets and rets[0] is not body[-1]):
+                    # early / several returns: bring the body into single-exit form first (the statements
+                    # after a returning `if` move into the branches that fall through)
+                    res_name = "result" if any(r.value is not None for r in rets) else None
+                    flat = _single_exit(copy.deepcopy(body), res_name)
+                    if flat is None:
+                        continue
+                    body = flat
+                    if res_name is not None:
+                        body = [ast.Assign(targets=[ast.Name(id=res_name, ctx=ast.Store())], value=ast.Constant(None))] \
+                            + body + [ast.Return(value=ast.Name(id=res_name, ctx=ast.Load()))]
+                    rets = [body[-1]] if res_name is not None else []
                 binds = _bind(h, val)
                 if binds is None or any(isinstance(n, (ast.Await, ast.Yield, ast.YieldFrom, ast.Global, ast.Nonlocal))
                                         for b in body for n in ast.walk(b)):
@@ -748,6 +889,15 @@ def the_call(regs: list[Region], name: str, fn: FuncInfo, rule: str = "C02.CAP")
     return got
 
 
+def _fold(a: ast.AST) -> ast.AST:
+    """`not <boolean constant>` folded."""
+    if isinstance(a, ast.UnaryOp) and isinstance(a.op, ast.Not):
+        v = _fold(a.operand)
+        if isinstance(v, ast.Constant) and isinstance(v.value, bool):
+            return ast.copy_location(ast.Constant(not v.value), a)
+    return a
+
+
 def discover_roles(prog: Program, pow_operand: Callable[[FuncInfo, list[Region]], str | None]) -> Roles:
     """Bind the bound-table / headroom parameters of the private allocation functions by dataflow."""
     roles = Roles()
@@ -761,11 +911,11 @@ def discover_roles(prog: Program, pow_operand: Callable[[FuncInfo, list[Region]]
     flags: set[str] = set()
     ieb_calls: dict[str, dict[str, ast.AST]] = {}
     for fname in ("consume", "supply"):
-        fn = prep(prog, q(prog, fname))
+        fn = entry(prog, fname)
         regs = regions(fn.node)
         seen: dict[str, str] = {}
         for _r, _p, e in all_calls(regs, sc(prog, "ieb")):
-            ieb_calls[fname] = positional(e.node, _params(ieb))  # type: ignore[arg-type]
+            ieb_calls[fname] = {k: _fold(a) for k, a in positional(e.node, _params(ieb)).items()}  # type: ignore[arg-type]
             flags |= {k for k, a in ieb_calls[fname].items() if isinstance(a, ast.Constant) and isinstance(a.value, bool)}
         dcalls = the_call(regs, sc(prog, "dp"), fn)
         for _r, cp, e in [c for c in dcalls if c[0].kind == "top"] or dcalls:
